@@ -74,7 +74,7 @@ H("C04", "key", "c04_client_a", timeout=900, oracle_features=["b4"],
 P("C07",
   outside=["single calls longer than 300 bytes (thorough: 600) are covered only through the step lemma + induction argument, not executed"],
   assumptions=["induction over the one-step / one-call lemmas extends the bounded harnesses to streams of any length (argument in DESIGN.md section 4, C07)"])
-H("C07", "vanilla_header", "c07_step", timeout=300,
+H("C07", "vanilla_header", "c07_step", timeout=900,
   encodes=["vanilla_header::encrypt::encrypt", "vanilla_header::decrypt::decrypt", "EncrypterHalf::encrypt", "DecrypterHalf::decrypt"],
   inputs="key [u8;40], index<40, previous u8, byte u8: all any",
   asserts="one-byte call == recurrence c=(x^key[i])+prev, i'=(i+1)%40, prev'=c; decrypt is the exact inverse with the same next state; invariant index<40 preserved",
@@ -94,7 +94,7 @@ H("C07", "vanilla_header", "c07_call_long", timeout=1500,
   inputs="key, previous, data [u8;260]: any; index = 39; n = 260",
   asserts="one 260-byte call equals 260 spec steps on both halves incl. the final position (index + length >= 256 wraps a u8 if mis-computed)",
   bounds="n = 260 exactly, starting position 39; unwind 262", assumes=[])
-H("C07", "vanilla_header", "c07_split_call", timeout=600,
+H("C07", "vanilla_header", "c07_split_call", timeout=1200,
   encodes=["EncrypterHalf::encrypt", "DecrypterHalf::decrypt"],
   inputs="state any; n <= 8, cut, cut2 <= n any; data any",
   asserts="encrypt(data[..cut]); encrypt(data[cut..]) == encrypt(data) incl. empty pieces, same for decrypt; decrypt(encrypt(x)) == x from paired states with arbitrary different chunking on the two sides; states stay paired",
@@ -111,7 +111,7 @@ H("C07", "vanilla_header", "c07_init", timeout=300, oracle_features=["cap128", "
 P("C08",
   outside=["HMAC-SHA1 itself (uninterpreted); single calls longer than 260 bytes are covered by the step lemma + induction argument only"],
   assumptions=[HASH_ASSUME, "induction over the one-step / one-call lemmas extends the bounded harnesses to streams of any length"])
-H("C08", "tbc_header", "c08_step", timeout=300,
+H("C08", "tbc_header", "c08_step", timeout=900,
   encodes=["tbc_header::encrypt::encrypt", "tbc_header::decrypt::decrypt", "EncrypterHalf::encrypt", "DecrypterHalf::decrypt"],
   inputs="key [u8;20], index<20, previous u8, byte u8: all any",
   asserts="one-byte call == recurrence over the 20-byte key (position modulo 20); decrypt is the exact inverse with the same next state; empty calls change nothing",
